@@ -317,7 +317,8 @@ def repeat_hit(req, mode):
         return Verdict(False, "identical request repeated (%s, halo=%r): hits=%d misses=%d puts=%d "
                        "ivp_solver calls=%d - not served from the cache"
                        % (mode, req["halo"], hits, misses, puts, ivp.calls),
-                       key="default-halo-never-hits" if req["halo"] is None else "repeat-never-hits")
+                       key="hit-but-solved-again" if hits >= 1 else
+                       "default-halo-never-hits" if req["halo"] is None else "repeat-never-hits")
     return Verdict(True, "repeat (%s, halo=%r): hit, nothing stored, no IVP solve"
                    % (mode, req["halo"]), nontrivial=_nontrivial(want))
 
